@@ -29,8 +29,8 @@ PROPS = ("C13",)
 NOFAULT = 99
 FREE = 99
 BROKEN = 9
-NOMSG = {"kind": "none", "w": 0, "id": 0, "st": "none", "sub": False}
-NOCE = {"w": 0, "id": 0, "st": "none", "route": "none", "ts": False}
+NOMSG = {"kind": "none", "w": 0, "id": 0, "st": "none", "sub": False, "code": "none"}
+NOCE = {"w": 0, "id": 0, "st": "none", "code": "none", "sub": False, "ts": False}
 NOENTRY = {"thr": 0, "call": "none", "v": 0, "h": 0}
 
 
@@ -187,7 +187,11 @@ class CallerStream:
         if n == self.ex.cfault:
             self.ex.sch.note(abort="cfault")
             raise CallerFault("caller's result raises at event %d" % n)
-        e = self.ex.project_event(test_id, test_status, file_name, route_code, timestamp)
+        # the message being dispatched was put by ... (only used for ids that do not name their worker: the
+        # ErrorHolder 'broken-runner-<route>' of workers that share a route code)
+        cur = (self.ex.sch._step or {}).get("item")
+        e = self.ex.project_event(test_id, test_status, file_name, route_code, timestamp,
+                                  hint=self.ex.putter.get(id(cur), 0))
         self.log.append(e)
         self.ex.sch.note(fwd=e)
 
@@ -211,13 +215,19 @@ class Execution:
         self.prs = {}
         self.unexpected = None
         n = len(script)
+        # route codes handed out by make_tests ("either None or a unicode string" - they need not be distinct):
+        # given by the scenario, else distinct codes with None for the last worker
         self.routes = {}
         for w, sc in enumerate(script, 1):
-            self.routes[w] = "r%d" % w
-        if variant == "stream" and n >= 2 and "raw" not in script[n - 1]["tests"]:
-            self.routes[n] = None  # "route_code is either None or a unicode string"
+            r = sc.get("route", "r%d" % w)
+            self.routes[w] = None if r == "none" else r
+        if variant == "stream" and n >= 2 and "route" not in script[n - 1] and "raw" not in script[n - 1]["tests"]:
+            self.routes[n] = None
+        for w, sc in enumerate(script, 1):
+            if variant == "stream" and self.routes[w] is None and "raw" in sc["tests"]:
+                raise tlc.MachineryError("C13: scenario outside the domain: raw event with its own route code in a worker "
+                                         "whose route code is None")
         self.subs = [SubSuite(self, w, sc["tests"], sc["raises"]) for w, sc in enumerate(script, 1)]
-        self.broken_ids = {"broken-runner-'%s'" % (r,): w for w, r in self.routes.items()}
         self.result = CallerResult(self) if variant == "suite" else CallerStream(self)
 
     # -- scripted collaborators ---------------------------------------------------------------
@@ -278,41 +288,45 @@ class Execution:
         pr.stop = stop
 
     # -- projections ----------------------------------------------------------------------------
-    def id_of(self, test_id):
+    def id_of(self, test_id, hint=0):
+        """(worker, abstract id) of a test id.  Scripted tests name their worker ('w<k>_t<i>'); the ErrorHolder's id
+        'broken-runner-<route>' does not when route codes coincide: it is attributed to the worker whose own queue
+        message carries it (hint) - never by route code alone."""
         if test_id is None:
             return 0, 0
-        if test_id in self.broken_ids:
-            w = self.broken_ids[test_id]
-            return w, 100 * w + 10 * BROKEN
+        if test_id.startswith("broken-runner-"):
+            cands = [w for w, r in self.routes.items() if test_id == "broken-runner-'%s'" % (r,)]
+            w = hint if hint in cands else (cands[0] if len(cands) == 1 else 0)
+            return w, (100 * w + 10 * BROKEN if w else -1)
         try:
             w, t = test_id[1:].split("_t")
             return int(w), 100 * int(w) + 10 * int(t)
         except Exception:
             return 0, -1
 
-    def project_event(self, test_id, test_status, file_name, route_code, timestamp):
-        w, v = self.id_of(test_id)
-        rw = self.routes.get(w)
-        if route_code == rw:
-            r = "own"
-        elif rw is not None and route_code == rw + "/sub":
-            r = "own/sub"
+    def project_event(self, test_id, test_status, file_name, route_code, timestamp, hint=0):
+        w, v = self.id_of(test_id, hint)
+        # the route code as it is on the event: <code> or <code>/sub (sub = the event's own route code)
+        if route_code is None:
+            code, sub = "none", False
+        elif route_code.endswith("/sub"):
+            code, sub = route_code[:-4], True
         else:
-            r = "other"
+            code, sub = route_code, False
         st = test_status if test_status is not None else ("file" if file_name is not None else "none")
-        return {"w": w, "id": v, "st": st, "route": r, "ts": timestamp is not None}
+        return {"w": w, "id": v, "st": st, "code": code, "sub": sub, "ts": timestamp is not None}
 
     def project_msg(self, item, putter):
         if self.variant == "suite":
             return item.w if isinstance(item, SubSuite) else -1
         ev = item.get("event") if isinstance(item, dict) else None
         if ev in ("startTestRun", "stopTestRun"):
-            return {"kind": ev, "w": putter, "id": 0, "st": "none", "sub": False}
+            return {"kind": ev, "w": putter, "id": 0, "st": "none", "sub": False, "code": "none"}
         if ev == "status":
             e = self.project_event(item.get("test_id"), item.get("test_status"), item.get("file_name"),
-                                   item.get("route_code"), item.get("timestamp"))
-            return {"kind": "status", "w": putter, "id": e["id"], "st": e["st"], "sub": e["route"] == "own/sub"}
-        return {"kind": "other", "w": putter, "id": 0, "st": "none", "sub": False}
+                                   item.get("route_code"), item.get("timestamp"), hint=putter)
+            return {"kind": "status", "w": putter, "id": e["id"], "st": e["st"], "sub": e["sub"], "code": e["code"]}
+        return {"kind": "other", "w": putter, "id": 0, "st": "none", "sub": False, "code": "none"}
 
     def alive(self):
         return sorted(t.id for t in self.sch.threads if t.id != 0 and t.state != "done")
@@ -380,6 +394,9 @@ class Execution:
         script = self.script
         if self.variant == "suite":
             script = [{"tests": [OUTCOME.get(t, t) for t in sc["tests"]], "raises": sc["raises"]} for sc in script]
+        if self.variant == "stream":
+            script = [dict(tests=sc["tests"], raises=sc["raises"], route="none" if self.routes[w] is None else self.routes[w])
+                      for w, sc in enumerate(script, 1)]
         d = {"variant": self.variant, "script": script, "makeFault": self.makeFault, "intrAt": self.intrAt,
              "ev": self.events, "complete": complete}
         if self.variant == "stream":
@@ -468,8 +485,11 @@ def replay_export(variant, beh):
 # scenarios
 
 
-def Sc(tests=(), raises=False):
-    return {"tests": list(tests), "raises": {False: "no", True: "exc"}.get(raises, raises)}
+def Sc(tests=(), raises=False, route=NOFAULT):
+    d = {"tests": list(tests), "raises": {False: "no", True: "exc"}.get(raises, raises)}
+    if route != NOFAULT:  # (None is a legal route code)
+        d["route"] = "none" if route is None else route
+    return d
 
 
 def systematic_scenarios(tier):
@@ -480,7 +500,6 @@ def systematic_scenarios(tier):
     sc.append(("suite", s2, N, N, N, 2))
     sc.append(("suite", s2, N, 1, N, 2))
     sc.append(("suite", s2, 1, N, N, 2))
-    sc.append(("suite", s2, 2, N, N, 2))
     sc.append(("suite", [Sc(["er"], "base"), Sc([])], N, N, N, 2))
     t2 = [Sc(["raw"]), Sc(["ok"])]
     sc.append(("stream", t2, N, N, N, 2))
@@ -489,6 +508,18 @@ def systematic_scenarios(tier):
     sc.append(("stream", t2, 2, N, N, 2))
     sc.append(("stream", [Sc([], True), Sc([])], N, N, N, 2))
     sc.append(("stream", [Sc(["raw"], "base"), Sc([])], N, N, N, 2))
+    # two workers that were given the SAME route code (a string / None): the table of live workers must not be
+    # keyed by it
+    sha = [Sc(["ok"], route="a"), Sc([], route="a")]
+    shn = [Sc([], route=None), Sc(["ok"], route=None)]
+    sc.append(("stream", sha, N, N, N, 2))
+    sc.append(("stream", shn, N, N, N, 1))
+    sc.append(("stream", sha, N, 2, N, 1))
+    sc.append(("stream", shn, N, N, 1, 1))
+    sc.append(("stream", [Sc([], True, route="a"), Sc([], True, route="a")], N, N, N, 1))
+    # three workers sharing one code
+    sc.append(("stream", [Sc([], route=None), Sc([], route=None), Sc([], route=None)], N, N, N, 1))
+    sc.append(("stream", [Sc([], route="a"), Sc(["raw"], route="a"), Sc([], route="a")], N, 3, N, 1))
     if tier == "thorough":
         s2b = [Sc(["ok"]), Sc(["er"], True)]
         t2b = [Sc(["ok", "raw"]), Sc(["er"], True)]
@@ -508,6 +539,12 @@ def systematic_scenarios(tier):
         sc.append(("stream", t3, N, N, N, 2))
         sc.append(("stream", t3, N, N, 4, 2))
         sc.append(("stream", [Sc(["ok"]), Sc([]), Sc(["raw"]), Sc([], True)], N, 3, N, 2))
+        sh3 = [Sc(["ok"], route="a"), Sc([], True, route="a"), Sc(["raw"], route="a")]
+        sc.append(("stream", sh3, N, N, N, 2))
+        sc.append(("stream", sh3, N, N, 2, 2))
+        sc.append(("stream", sh3, 2, N, N, 2))
+        sc.append(("stream", [Sc([], route=None), Sc(["ok"], route=None), Sc(["er"], route="b")], N, 2, N, 2))
+        sc.append(("stream", [Sc(["ok"], route=None), Sc(["er"], True, route=None)], N, N, N, 3))
         sc.append(("stream", t2b, N, N, N, 3))
     return sc
 
@@ -518,6 +555,19 @@ def random_scenario(rng):
     kinds = ("ok", "er") if variant == "suite" else ("ok", "er", "raw")
     script = [Sc([rng.choice(kinds) for _ in range(rng.randint(0, 3))], rng.choice((False, False, False, False, True, True, "base")))
               for _ in range(n)]
+    if variant == "stream" and n >= 2 and rng.random() < 0.5:
+        mode = rng.choice(("all-a", "all-none", "two-none", "two-a"))
+        for w, sc in enumerate(script):
+            if mode == "all-a":
+                sc["route"] = "a"
+            elif mode == "all-none":
+                sc["route"] = "none"
+            elif mode == "two-none":
+                sc["route"] = "none" if w < 2 else "r%d" % (w + 1)
+            else:
+                sc["route"] = "a" if w >= n - 2 else "r%d" % (w + 1)
+            if sc["route"] == "none":
+                sc["tests"] = ["ok" if t == "raw" else t for t in sc["tests"]]
     mf = ia = cf = NOFAULT
     r = rng.random()
     if r < 0.2:
@@ -532,7 +582,7 @@ def random_scenario(rng):
 def abstract(tr):
     return {
         "variant": tr["variant"],
-        "script": [("".join({"addSuccess": "o", "addError": "e"}.get(t, t[0]) for t in s["tests"]) or "-") + {"no": "", "exc": "!", "base": "!!"}[s["raises"]] for s in tr["script"]],
+        "script": [("".join({"addSuccess": "o", "addError": "e"}.get(t, t[0]) for t in s["tests"]) or "-") + {"no": "", "exc": "!", "base": "!!"}[s["raises"]] + ("@" + s["route"] if "route" in s else "") for s in tr["script"]],
         "faults": {k: tr[k] for k in ("makeFault", "intrAt", "cfault") if tr.get(k, NOFAULT) != NOFAULT},
         "schedule": "".join(str(e["thr"]) for e in tr["ev"]),
         "end": tr["ev"][-1]["main"] + ":" + tr["ev"][-1]["prop"] if tr["ev"] else "",
@@ -581,6 +631,9 @@ def run(tier, pid="C13"):
     rep.assume("'reported as broken-runner' is required for run() raising an Exception; for a BaseException (what the "
                "code does not catch) only the completion message / termination is required")
     rep.assume("raw stream events with their own route code are only emitted by workers whose route code is not None")
+    rep.assume("route codes handed out by make_tests need not be distinct (scenarios give two / three workers the same "
+               "string or None); events are attributed to workers by test id, the ErrorHolder's 'broken-runner-<route>' "
+               "id by the worker whose own queue message carries it")
     quick = tier == "quick"
     nfile = calibrate_nfile()
     rep.extra["traceback_chunk_events"] = nfile
@@ -590,10 +643,10 @@ def run(tier, pid="C13"):
     from concurrent.futures import ThreadPoolExecutor
 
     pool = ThreadPoolExecutor(2)
-    mc = {"suite": ["cs_mcQ.cfg"], "stream": ["css_mcQ.cfg", "css_mcB.cfg"]}
+    mc = {"suite": ["cs_mcQ.cfg"], "stream": ["css_mcQ.cfg", "css_mcB.cfg", "css_mcSh.cfg"]}
     if not quick:
         mc["suite"] += ["cs_mc3.cfg", "cs_mc4.cfg", "cs_mc13.cfg"]
-        mc["stream"] += ["css_mc3.cfg", "css_mc4.cfg", "css_mc13.cfg"]
+        mc["stream"] += ["css_mc3.cfg", "css_mc4.cfg", "css_mc13.cfg", "css_mcSh3.cfg"]
     nsim = 150 if quick else 1000
     jobs = {}
     for v in ("suite", "stream"):
@@ -639,7 +692,7 @@ def run(tier, pid="C13"):
     sys_counts = []
     cap = 600 if quick else 1000
     for variant, script, mf, ia, cf, bound in systematic_scenarios(tier):
-        exr = S.Explorer(bound, max_executions=cap)
+        exr = S.Explorer(bound, max_executions=cap if (len(script) < 3 or not quick) else cap // 2)
         while exr.more():
             trace, dl, ex = run_scenario(variant, script, mf, ia, cf, exr)
             record(trace, dl, ex, "systematic")
@@ -652,7 +705,7 @@ def run(tier, pid="C13"):
         if len(rep.violations) >= 3:
             break
     rng = random.Random(rep.seed * 104729 + 13)
-    nrand = 400 if quick else 4000
+    nrand = 300 if quick else 4000
     for j in range(nrand):
         if len(rep.violations) >= 3:
             break
